@@ -777,6 +777,7 @@ namespace impl {
     <
         T, 
         typename std::enable_if<is_array_like<T>::value && 
+                                has_data_and_size<T>::value && // contiguous storage
                                 (std::is_same<typename std::decay<typename T::value_type>::type,uint8_t>::value ||  
                                  std::is_same<typename std::decay<typename T::value_type>::type,uint16_t>::value ||
                                  std::is_same<typename std::decay<typename T::value_type>::type,uint32_t>::value ||
